@@ -1,5 +1,5 @@
 (* C05: bounded-buffer serialisation: exact capacity threshold, never out of bounds. *)
-From PV Require Import Base MachineInt DataModel Ser De Cobs CobsRef Crc SerFlavors Sinks Thresholds PtrDecl GenPtrCode PtrInterp PtrCodeFacts.
+From PV Require Import Base MachineInt DataModel Ser De Cobs CobsRef Crc SerFlavors Sinks Thresholds PtrDecl GenPtrCode PtrInterp PtrCodeFacts StorageDecl GenStorages StorageInterp StorageFacts.
 Open Scope N_scope.
 
 (* caller slice (raw start/cursor/end pointers; a write outside the buffer is Fault):
@@ -87,6 +87,22 @@ Theorem C05_index_mut_is_the_source : forall (s : slice_st) (idx : nat) (b : byt
   end.
 Proof. exact slice_set_is_source. Qed.
 
+(* the bounded and the growable vector storages are the method bodies of ser/flavors.rs as read
+   on this run (GenStorages.v), interpreted over heapless::Vec's all-or-nothing push /
+   extend_from_slice and alloc's Vec: on every state and every argument *)
+Theorem C05_hvec_is_the_source : forall cap v,
+  (forall b, sf_push (hvec_flavor cap) v b = unvec (run_method nm_HVec nm_try_push (SVec (Some cap) v) (AByte b))) /\
+  (forall bs, sf_extend (hvec_flavor cap) v bs = unvec (run_method nm_HVec nm_try_extend (SVec (Some cap) v) (ABytes bs))) /\
+  sf_finalize (hvec_flavor cap) v = unvec (run_method nm_HVec nm_finalize (SVec (Some cap) v) ANone) /\
+  (forall i b, sf_set (hvec_flavor cap) v i b = unvec (run_method nm_HVec_IndexMut nm_index_mut (SVec (Some cap) v) (ASet i b))).
+Proof. exact hvec_is_source. Qed.
+Theorem C05_allocvec_is_the_source : forall v,
+  (forall b, sf_push alloc_flavor v b = unvec (run_method nm_AllocVec nm_try_push (SVec None v) (AByte b))) /\
+  (forall bs, sf_extend alloc_flavor v bs = unvec (run_method nm_AllocVec nm_try_extend (SVec None v) (ABytes bs))) /\
+  sf_finalize alloc_flavor v = unvec (run_method nm_AllocVec nm_finalize (SVec None v) ANone) /\
+  (forall i b, sf_set alloc_flavor v i b = unvec (run_method nm_AllocVec_IndexMut nm_index_mut (SVec None v) (ASet i b))).
+Proof. exact allocvec_is_source. Qed.
+
 Print Assumptions C05_slice.
 Print Assumptions C05_heapless.
 Print Assumptions C05_slice_cobs.
@@ -99,3 +115,5 @@ Print Assumptions C05_try_push_is_the_source.
 Print Assumptions C05_try_extend_is_the_source.
 Print Assumptions C05_finalize_is_the_source.
 Print Assumptions C05_index_mut_is_the_source.
+Print Assumptions C05_hvec_is_the_source.
+Print Assumptions C05_allocvec_is_the_source.
